@@ -17,3 +17,58 @@ package ucon
 
 // The encode side ("EncodeRLP passes each field"): the argument is a `[]interface{}` literal boxed into an interface; the
 // contract language cannot name that type in unbox(i, T) (engine_requests/C14.md item 12): not decided.
+
+// ---------------------------------------------------------------------------------------------------------------------
+// Network-facing decode sites are pinned to the WHOLE-INPUT decoder rlp.DecodeBytes (one value, no trailing bytes): an
+// accepted payload / envelope / header field is exactly one RLP value, so it can re-encode to exactly those bytes and has one
+// hash. c14WholeInput(b) is established only by rlp.DecodeBytes' successful return (rlp/verif_contracts_c14.go), not by
+// rlp.Decode / (*Stream).Decode, which stop after the first value.
+
+// Payload of a (signed) consensus message.
+//@ func (*Message).DecodePayload props C14
+//@ requires m != nil
+//@ modifies all, c14Consumed, c14K, c14Sz, c14P, c14E, c14Left, c14Whole
+//@ assert before call rlp.DecodeBytes: [whole-payload-decoded] a0 == m.Payload
+//@ ensures [accept-implies-whole-payload] result == nil ==> c14WholeInput(old(m.Payload))
+
+// Envelope of a consensus message (HandleMsg's first step).
+//@ func Decode props C14
+//@ modifies all, c14Consumed, c14K, c14Sz, c14P, c14E, c14Left, c14Whole
+//@ assert before call rlp.DecodeBytes: [whole-message-decoded] a0 == b
+//@ ensures [accept-implies-whole-message] result1 == nil ==> c14WholeInput(b) && result0 != nil
+//@ ensures [reject-returns-nil] result1 != nil ==> result0 == nil
+
+// Consensus data (vote container) of a header.
+//@ func ExtractConsensusData props C14
+//@ modifies all, c14Consumed, c14K, c14Sz, c14P, c14E, c14Left, c14Whole
+//@ assert before call rlp.DecodeBytes: [whole-field-decoded] a0 == header.Consensus
+//@ ensures [accept-implies-whole-field] result1 == nil ==> header != nil && c14WholeInput(old(header.Consensus)) && result0 != nil
+//@ ensures [reject-returns-nil] result1 != nil ==> result0 == nil
+
+// Validator / certificate vote container of a header.
+//@ func ExtractUconValidators props C14
+//@ modifies all, c14Consumed, c14K, c14Sz, c14P, c14E, c14Left, c14Whole
+//@ assert before call rlp.DecodeBytes: [whole-field-decoded] a0 == data &&
+//@     (backType == params.LookBackCert ==> data == h.Certificate) && (backType != params.LookBackCert ==> data == h.Validator)
+//@ ensures [accept-implies-whole-field] result1 == nil ==>
+//@     c14WholeInput(if backType == params.LookBackCert then old(h.Certificate) else old(h.Validator))
+//@ ensures [reject-returns-nil] result1 != nil ==> result0 == nil
+
+// RecoverSignerInfo: the attacker-chosen vote.VoterIdx reaches the validator list only through Validators.GetByIndex; an index
+// outside the list is rejected with an error, never dereferenced. (The list holds no nil entries: rlp decodes []*Validator
+// into allocated elements.)
+//@ func (*BlsVerifier).RecoverSignerInfo props C14
+//@ panics none
+//@ requires v != nil && vs != nil && vote != nil
+//@ requires forall i: int :: 0 <= i && i < len(vs.validators) ==> vs.validators[i] != nil
+//@ let n = len(vs.validators)
+//@ let idx = vote.VoterIdx
+//@ modifies all
+//@ assert after call (core/state.Validators).GetByIndex: [index-checked] (ret1 <==> idx < n) && (ret1 ==> ret0 != nil)
+//@ ensures [out-of-range-rejected] idx >= n ==> err != nil
+
+// Key lookups behind RecoverSignerInfo (LRU cache + BLS / secp256k1 decoding): outside C14, any effect.
+//@ func (*BlsVerifier).GetBlsPubKey props C14
+//@ modifies all
+//@ func (*BlsVerifier).GetVrfPubKey props C14
+//@ modifies all
